@@ -875,6 +875,12 @@ def run(repo: Repo, rep: Report, tier: str) -> None:
             o.status = OK
             o.detail = "unlisted spelling; the function's tabulation against the reference arithmetic decides it - " + o.detail
             o.nontrivial = False
+        elif o.status == VIOLATION and o.rule == "CLOSED-FORM" and o.where in tabulated and "name `" in (o.detail or "") and "is required" in (o.detail or ""):
+            # the closed form differs from the listed one only in the NAME of a local (a renamed loop variable): that is a
+            # spelling, and the function's tabulation against the reference arithmetic has decided the behaviour
+            o.status = OK
+            o.detail = "a local is named differently from the listed form; the function's tabulation against the reference arithmetic decides it - " + o.detail
+            o.nontrivial = False
     rep.decided_clauses += [
         "every tabulated modulus is a primitive polynomial of its degree (m=1..16)",
         "the designated primitive element is a unit in every tabulated field",
